@@ -78,6 +78,10 @@ func c15Subj(c *mon.Ctx, i int) (c15Subject, bool) {
 		prof = prof.With(func(p *gen.Profile) { p.Keys = []string{"id", "ID", "Id", "a", "A", "b"}; p.PArr = 0.3 })
 	}
 	a, b := PairFor(r, o, prof)
+	if len(o.Keys) > 0 && (i/len(AllDiffOpts))%2 == 1 {
+		// members keep their key and change elsewhere: hunks below a keyed member, at the root or under a key
+		a, b = keyedMemberPair(r, prof, o.Keys)
+	}
 	if i%13 == 12 {
 		// numbers within and beyond a tolerance at the same positions of lists and objects
 		o = []OptSet{OptPrecision(0.1), OptMergePrec, OptPrecision(0.5)}[(i/13)%3]
@@ -140,6 +144,13 @@ func c15History(c *mon.Ctx, s c15Subject, seq []int) {
 	if err != nil {
 		c.Skip("text not readable")
 		return
+	}
+	if s.src == "diff" {
+		// the Diff call that built the subject is itself a read-only call
+		if Dump(A) != Dump(ReadJ(s.aText)) || Dump(B) != Dump(ReadJ(s.bText)) {
+			c.Violation("Diff modified one of its operands (they no longer dump like fresh parses of the same texts)", map[string]any{"a_after": A.Json(), "b_after": B.Json()})
+			return
+		}
 	}
 	names := make([]string, len(seq))
 	for i, k := range seq {
